@@ -20,6 +20,21 @@ DICTIONARY = [
     "_a_", "a" * 300, "9" * 40, "pvns.Svc.1.0", "Svc.1.0", "pvns.Svc.1.0[2]", "pvns.Svc.1.0[<=2]", "pvns.Svc.1.0._extent_",
 ]
 
+ESCAPES = ["\\uD800", "\\uDFFF", "\\uDBFF", "\\udc00", "\\U0000D800", "\\U0000DFFF", "\\U0000dc00", "\\U0000DBFF", "\\U0010FFFF", "\\U00110000",
+           "\\UFFFFFFFF", "\\U80000000", "\\u0000", "\\U00000000", "\\U00000041", "\\u0041", "\\U0001F600", "\\uD83D\\uDE00", "\\U0000D83D\\U0000DE00",
+           "a\\U0000D800", "\\U0000D800a", "\\u00e9", "\\U000000e9", "\\u212a", "\\x41", "\\u+041", "\\U-0000041", "\\u 041", "\\U0000 041", "\\u0x1", "\\u1_0"]
+ESCAPE_CONTEXTS = ["uint8 X = '%s'", "truncated uint8 X = '%s'", "uint16 X = '%s'", "int8 X = '%s'", "uint64 X = \"%s\"", "@print '%s'", "@assert '%s' == '%s'",
+                   "@print {'%s'}", "@print '%s' + 'a'", "uint8 X = '%s' + ''", "uint8 X = '' + '%s'", "bool B = '%s' == 'a'", "bool B = '%s' != '%s'",
+                   "@print {'%s', 'a'}.count", "float32 F = '%s'", "uint8['%s'] a", "@print {'%s'} == {'%s'}", "@assert {'%s'} | {'a'} == {'a', '%s'}",
+                   "@print {{'%s'}, {'a'}}.count", "uint8 X = '%s'\nuint8 Y = X"]
+
+
+def string_escape_statement(rng):
+    """A numeric character escape of a string literal (valid, out of range, a lone / paired surrogate in either spelling) in a context that uses the value."""
+    e, c = rng.choice(ESCAPES), rng.choice(ESCAPE_CONTEXTS)
+    return c.replace("%s", e)
+
+
 CORNER_STATEMENTS = [
     "@assert (-8) ** (1/2) == 0", "@print (10**400) ** (1/2)", "@print (10**400) ** -0.5", "@print 2 ** 0.5", "@print (-1) ** 0.5",
     "@print (-8) ** (1/3)", "@print 0 ** -1", "@print 0 ** (-1/2)", "@print 0 ** 0", "@print 0.0 ** -1", "@print (1e-400) ** -0.5",
